@@ -1,5 +1,10 @@
 //! This crate is the core of jxl-oxide that provides JPEG XL renderer.
+#[cfg(not(jxl_oxide_verif_shuttle))]
 use std::sync::{Arc, Mutex};
+#[cfg(jxl_oxide_verif_shuttle)]
+use shuttle::sync::Mutex;
+#[cfg(jxl_oxide_verif_shuttle)]
+use std::sync::Arc;
 
 use jxl_bitstream::Bitstream;
 use jxl_color::{
@@ -24,6 +29,8 @@ mod render;
 mod state;
 mod util;
 mod vardct;
+#[cfg(jxl_oxide_verif)]
+pub mod verif;
 
 pub use error::{Error, Result};
 pub use features::render_spot_color;
